@@ -47,7 +47,7 @@ STOPS = '<stop offset="0" stop-color="red"/><stop offset="1" stop-color="blue"/>
 RGRAD = '<radialGradient id="{id}"{extra}>{stops}</radialGradient>'
 
 SETUPS = ["g", "g+h", "h->g", "h->g->t"]
-COLLISIONS = ["none", "shape:g_0", "grad:g_0", "shape:g_0+g_1", "shape:h_0"]
+COLLISIONS = ["none", "shape:g_0", "grad:g_0", "shape:g_0+g_1", "shape:h_0", "root:g_0", "stop:g_0"]
 
 
 def document(setup, collision, seq, nested, clip, ids):
@@ -88,7 +88,10 @@ def document(setup, collision, seq, nested, clip, ids):
     if nested:
         defs += '<rect id="nested-svg-viewport-0" width="1" height="1"/>'
         body += '<svg x="50" y="50" width="40" height="40" viewBox="0 0 20 20"><rect width="30" height="10" fill="url(#g)"/></svg><svg x="5" y="85" width="30" height="12" viewBox="0 0 20 20"><circle cx="10" cy="10" r="15" fill="url(#g)"/></svg><use xlink:href="#nested-svg-viewport-0" x="95" y="95"/>'
-    return f'<svg {NS} viewBox="0 0 100 100"><defs>{defs}</defs>{body}</svg>'
+    rootid = ' id="g_0"' if collision == "root:g_0" else ""
+    if collision == "stop:g_0":
+        defs = defs.replace('<stop offset="0" stop-color="red"/>', '<stop id="g_0" offset="0" stop-color="red"/>', 1)
+    return f'<svg {NS} viewBox="0 0 100 100"{rootid}><defs>{defs}</defs>{body}</svg>'
 
 
 URL = re.compile(r"""url\(\s*['"]?#([^)\s'"]+)['"]?\s*\)""")
